@@ -839,6 +839,11 @@ impl World {
         let (is_cc, size) = match kind {
             CallKind::Propose(sz) => (false, *sz),
             CallKind::ProposeCc => (true, 0),
+            // a proposal forwarded by a follower
+            CallKind::Step(m) if m.get_msg_type() == MessageType::MsgPropose => (
+                m.entries.iter().any(|e| e.get_entry_type() != EntryType::EntryNormal),
+                m.entries.iter().map(|e| e.data.len()).sum::<usize>(),
+            ),
             _ => return,
         };
         if pre.role != StateRole::Leader {
@@ -866,7 +871,16 @@ impl World {
         } else {
             None
         };
-        let payload = new_entry.as_ref().map(|e| e.data.len() as u64).unwrap_or(size as u64);
+        // payload of everything this proposal appended (one entry, or [normal, conf change])
+        let payload = if accepted {
+            let rn = &self.live(i).unwrap().rn;
+            (pre.last + 1..=post.last)
+                .filter_map(|k| rl_entry(rn, k))
+                .map(|e| e.data.len() as u64)
+                .sum::<u64>()
+        } else {
+            size as u64
+        };
         let u_pre = self.live(i).unwrap().u_bytes;
         if accepted {
             let u_post = u_pre + payload;
@@ -893,17 +907,21 @@ impl World {
         }
         // ---- C09(a)
         if is_cc && accepted {
-            let e = new_entry.unwrap();
-            let pending = (pre.applied + 1..=pre.last).any(|k| pre.at(k).map(|x| is_conf(x.2)).unwrap_or(false));
-            let neutral = e.get_entry_type() == EntryType::EntryNormal && e.data.is_empty();
-            // what was proposed: recover from the scenario menu through the entry when intact
-            let cc = if neutral { None } else { decode_cc(&e) };
-            if neutral {
-                ctx.stat(Stat::CcNeutralised);
-            } else {
+            let new_ents: Vec<Entry> = {
+                let rn = &self.live(i).unwrap().rn;
+                (pre.last + 1..=post.last).filter_map(|k| rl_entry(rn, k).cloned()).collect()
+            };
+            for e in &new_ents {
+                let neutral = e.get_entry_type() == EntryType::EntryNormal && e.data.is_empty();
+                if neutral {
+                    ctx.stat(Stat::CcNeutralised);
+                    continue;
+                }
+                let Some(cc) = decode_cc(e) else { continue };
                 ctx.stat(Stat::CcAccepted);
-            }
-            if let Some(cc) = &cc {
+                // a membership entry between applied and this one (in the old log or earlier in
+                // the same proposal) makes this one a second pending change
+                let pending = (pre.applied + 1..e.index).any(|k| post.at(k).map(|x| is_conf(x.2)).unwrap_or(false));
                 let changes_empty = cc.changes.is_empty();
                 let must_neutralise = pending || (pre.joint && !changes_empty) || (!pre.joint && changes_empty);
                 if must_neutralise {
